@@ -97,12 +97,18 @@ def gen(rng, kind):
         t = "C"
     if t:
         ev.append([t])
-    subs = [{"after_ms": rng.choice([0, 0, 1, 2, 3, 6]), "yields": rng.randrange(0, 6), "unsub_after_ms": rng.choice([None, None, None, 1, 4])}
-            for _ in range(rng.choice([1, 1, 2]))]
-    sc = {"mode": "th", "kind": kind, "events": ev, "subscribers": subs, "sched": th.gen_sched(rng, ks=(1, 2, 2, 3, 3), sweep_p=0.03)}
+    subs = [{"after_ms": rng.choice([0, 0, 1, 2, 3, 6]), "yields": rng.randrange(0, 6), "unsub_after_ms": rng.choice([None, None, 0, 1, 4])}
+            for _ in range(rng.choice([1, 2, 2]))]
+    sc = {"mode": "th", "kind": kind, "events": ev, "subscribers": subs, "sched": th.gen_sched(rng, ks=(1, 2, 2, 3, 3), sweep_p=0.05, opcode_p=0.5)}
     if kind == "replay":
         sc["buffer_size"] = rng.choice([None, 1, 2])
     return sc
+
+
+def valid(sc):
+    """(for the shrinker) the values are 1..m in order: the oracles read gaps and staleness off them"""
+    vals = [e[1] for e in sc["events"] if e[0] == "N"]
+    return vals == list(range(1, len(vals) + 1)) and all(e[0] in ("N", "C", "E", "sleep") for e in sc["events"])
 
 
 FOCUS = {"plain": ("subject.py", "innersubscription.py"), "behavior": ("behaviorsubject.py", "subject.py", "innersubscription.py"),
@@ -153,7 +159,7 @@ def execute(sc):
         iv = w.sub_iv.get(i)
         unsub = w.unsub_inv.get(i)
         if kind == "async":
-            exp_ok = (ks in ("", "NC", "C", "E")) and (not vals or vals == [m]) and not (term == "E" and "N" in ks) and not (term == "C" and m and ks == "C")
+            exp_ok = (ks in ("", "NC", "C", "E") or (ks == "N" and unsub is not None)) and (not vals or vals == [m]) and not (term == "E" and "N" in ks) and not (term == "C" and m and ks == "C")
             if not exp_ok:
                 bad("async-log", who + ", the subject got %d values and then %s" % (m, term))
             if iv and not sim.failure and unsub is None and term and ks[-1:] != term:
